@@ -1,4 +1,4 @@
-import Cppcms.C14.LemmasStr
+import Cppcms.C14.LemmasU2U
 /-!
 # C14 — property theorems
 
@@ -66,21 +66,8 @@ theorem decoders_agree (bs : Bytes) :
 
 /-- `booster::locale::utf::utf_traits<char>::decode` against RFC 3629 -/
 theorem decode_iff_rfc3629 (bs rest : Bytes) (v : Nat) :
-    Boost.decode bs = (.cp v, rest) ↔ ∃ enc, bs = enc ++ rest ∧ Rfc3629 v enc := by
-  have hag := decoders_agree bs
-  have key : Boost.decode bs = (.cp v, rest) ↔ Cms.next false bs = (.cp v, rest) := by
-    rw [hag]
-    constructor
-    · intro h; rw [h]; rfl
-    · intro h
-      have h1 : collapse (Boost.decode bs).1 = .cp v := congrArg Prod.fst h
-      have h2 : (Boost.decode bs).2 = rest := congrArg Prod.snd h
-      cases hd : (Boost.decode bs).1 with
-      | cp w => rw [hd] at h1; cases h1; rw [← h2, ← hd]
-      | illegal => rw [hd] at h1; cases h1
-      | incomplete => rw [hd] at h1; cases h1
-  rw [key, next_iff_rfc3629]
-  simp [modeOk]
+    Boost.decode bs = (.cp v, rest) ↔ ∃ enc, bs = enc ++ rest ∧ Rfc3629 v enc :=
+  decode_cp_iff bs rest v
 
 /-- booster reports `incomplete` exactly for truncated input: nothing at all, or a lead byte
 followed only by trail bytes, fewer than the lead announces.  (Everything else that is not a
@@ -145,6 +132,138 @@ theorem validate_count_on_failure (html : Bool) (s : Bytes) (n : Nat) (h : valid
 theorem validUtf8_iff_wellformed_htmlsafe (s : Bytes) (n : Nat) :
     validUtf8 s 0 = (true, n) ↔ WellFormed true s n :=
   validate_iff_wellformed true s n
+
+/-! ## the conversion layer on top of booster's decoder: `booster::locale::conv::utf_to_utf` -/
+
+/-- `utf_to_utf<char>(…, stop)` throws `conversion_error` **iff** the text is not well-formed
+UTF-8 (truncated final sequences included: the decoder's `incomplete` is an error too) -/
+theorem utf_to_utf_stop_rejects_iff_invalid (s : Bytes) :
+    Boost.utf8ToUtf8 Gen.methodStop s = none ↔ ¬ ∃ n, WellFormed false s n := by
+  unfold Boost.utf8ToUtf8 Boost.utf8ToCps
+  constructor
+  · intro h ⟨n, hw⟩
+    obtain ⟨chars, hs⟩ := wf_splits hw
+    rw [u2uFuel_splits _ s.length s chars (Nat.le_refl _) hs] at h
+    simp at h
+  · intro h
+    cases hc : Boost.u2uFuel Gen.methodStop s.length s with
+    | none => rfl
+    | some cs =>
+      exfalso
+      obtain ⟨chars, hs, _⟩ := u2uFuel_stop_splits s.length s cs (Nat.le_refl _) hc
+      exact h ⟨_, splits_wf hs⟩
+
+/-- well-formed text passes through `utf_to_utf<char>` unchanged, whatever the method -/
+theorem utf_to_utf_id_on_valid (how : Nat) (s : Bytes) (n : Nat) (h : WellFormed false s n) :
+    Boost.utf8ToUtf8 how s = some s := by
+  obtain ⟨chars, hs⟩ := wf_splits h
+  unfold Boost.utf8ToUtf8 Boost.utf8ToCps
+  rw [u2uFuel_splits how s.length s chars (Nat.le_refl _) hs]
+  simp only [Option.map_some]
+  rw [encode_splits hs]
+
+/-- whatever `stop` mode returns is the input itself -/
+theorem utf_to_utf_stop_returns_input (s out : Bytes) (h : Boost.utf8ToUtf8 Gen.methodStop s = some out) :
+    out = s := by
+  by_cases hw : ∃ n, WellFormed false s n
+  · obtain ⟨n, hw⟩ := hw
+    rw [utf_to_utf_id_on_valid _ s n hw] at h
+    cases h; rfl
+  · rw [(utf_to_utf_stop_rejects_iff_invalid s).2 hw] at h
+    cases h
+
+/-- `utf_to_utf<char>(…, skip)` never throws and its result is well-formed UTF-8, for every input -/
+theorem utf_to_utf_skip_yields_valid (s : Bytes) :
+    ∃ out, Boost.utf8ToUtf8 Gen.methodSkip s = some out ∧ ∃ n, WellFormed false out n := by
+  obtain ⟨cs, hcs, hsc⟩ := u2uFuel_skip_scalars s.length s (Nat.le_refl _)
+  refine ⟨(cs.map Boost.encode).flatten, ?_, cs.length, encode_scalars_wf cs hsc⟩
+  unfold Boost.utf8ToUtf8 Boost.utf8ToCps
+  rw [hcs]; rfl
+
+/-- the code points `utf_to_utf<wchar_t>(char const*,…, stop)` produces: `cps` comes out iff the
+text is the concatenation of the RFC 3629 encodings of the scalar values `cps` -/
+theorem utf_to_utf_code_points (s : Bytes) (cps : List Nat) :
+    Boost.utf8ToCps Gen.methodStop s = some cps ↔
+      (∀ c ∈ cps, Scalar c) ∧ s = (cps.map Spec.encode).flatten := by
+  unfold Boost.utf8ToCps
+  constructor
+  · intro h
+    obtain ⟨chars, hs, rfl⟩ := u2uFuel_stop_splits s.length s cps (Nat.le_refl _) h
+    refine ⟨?_, ?_⟩
+    · intro c hc
+      obtain ⟨ch, hch, rfl⟩ := List.mem_map.1 hc
+      exact (rfc_scalar_shortest (hs.2 ch hch)).1
+    · rw [hs.1, List.map_map]
+      congr 1
+      apply List.map_congr_left
+      intro ch hch
+      exact rfc_eq_encode (hs.2 ch hch)
+  · rintro ⟨hsc, rfl⟩
+    have hs : Splits ((cps.map Spec.encode).flatten) (cps.map fun c => (c, Spec.encode c)) := by
+      refine ⟨by simp [List.map_map, Function.comp_def], ?_⟩
+      intro ch hch
+      obtain ⟨c, hc, rfl⟩ := List.mem_map.1 hch
+      exact rfc_encode (hsc c hc)
+    rw [u2uFuel_splits _ _ _ _ (Nat.le_refl _) hs]
+    simp [List.map_map, Function.comp_def]
+
+/-- the other direction, `utf_to_utf<char>(wchar_t const*,…)` with 32-bit units: `stop` succeeds
+iff every unit is a scalar value and then yields their RFC 3629 encodings; `skip` drops the other
+units, so its result is always well formed -/
+theorem utf32_to_utf8 (us : List Nat) :
+    (∀ out, Boost.utf32ToUtf8 Gen.methodStop us = some out ↔
+      (∀ u ∈ us, Scalar u) ∧ out = (us.map Spec.encode).flatten) ∧
+    (∃ out, Boost.utf32ToUtf8 Gen.methodSkip us = some out ∧ ∃ n, WellFormed false out n) := by
+  have hbad : ∀ c, Gen.utf32Bad c = true ↔ ¬ Scalar c := by
+    intro c
+    have := Boost.invalidCp_eq c
+    unfold Gen.Boost.invalidCp at this
+    unfold Gen.utf32Bad Scalar
+    rw [this]; simp; omega
+  induction us with
+  | nil =>
+    refine ⟨fun out => ?_, [], rfl, 0, (wf_nil false 0).2 rfl⟩
+    simp [Boost.utf32ToUtf8]
+  | cons u us ih =>
+    obtain ⟨ih1, outk, ih2, nk, ih3⟩ := ih
+    by_cases hu : Scalar u
+    · have hb : Gen.utf32Bad u = false := by
+        cases hx : Gen.utf32Bad u with
+        | false => rfl
+        | true => exact absurd hu ((hbad u).1 hx)
+      have he := isError_cp hu.1
+      have he' : Gen.u2uIsError u = false := he
+      constructor
+      · intro out
+        simp only [Boost.utf32ToUtf8, Boost.decode32, hb, Bool.false_eq_true, if_false, he]
+        cases hr : Boost.utf32ToUtf8 Gen.methodStop us with
+        | none =>
+          have := ih1
+          simp only [Option.map_none, reduceCtorEq, false_iff]
+          rintro ⟨hall, rfl⟩
+          have := (ih1 _).2 ⟨fun x hx => hall x (by simp [hx]), rfl⟩
+          rw [hr] at this; cases this
+        | some o =>
+          have ho := (ih1 o).1 hr
+          simp only [Option.map_some, Option.some.injEq, Boost.code, boost_encode_eq_spec hu]
+          constructor
+          · rintro rfl
+            exact ⟨fun x hx => by rcases List.mem_cons.1 hx with rfl | h; exact hu; exact ho.1 x h,
+              by simp [ho.2]⟩
+          · rintro ⟨_, rfl⟩
+            simp [ho.2]
+      · refine ⟨Spec.encode u ++ outk, ?_, nk + 1, wf_cons (rfc_encode hu) rfl ih3⟩
+        simp only [Boost.utf32ToUtf8, Boost.decode32, hb, Bool.false_eq_true, if_false, he, he', ih2,
+          Option.map_some, Boost.code, boost_encode_eq_spec hu]
+    · have hb : Gen.utf32Bad u = true := (hbad u).2 hu
+      constructor
+      · intro out
+        simp only [Boost.utf32ToUtf8, Boost.decode32, hb, if_true, isError_illegal, throws_stop,
+          reduceCtorEq, false_iff]
+        rintro ⟨hall, _⟩
+        exact hu (hall u (by simp))
+      · exact ⟨outk, by simp only [Boost.utf32ToUtf8, Boost.decode32, hb, if_true, isError_illegal, throws_skip,
+          Bool.false_eq_true, if_false, ih2], nk, ih3⟩
 
 /-! ## single-byte code pages -/
 
@@ -363,6 +482,12 @@ example : Truncated [0xE2, 0x82] := Or.inr ⟨0xE2, [0x82], 3, rfl, by decide, b
 example : Scalar 0x1F600 := by unfold Scalar; omega
 example : normName [73, 83, 79, 45, 56, 56, 53, 57, 45, 49] = normName [105, 115, 111, 56, 56, 53, 57, 49] := by decide
 example : validate true [0x41, 0xC3, 0xA9, 0xC2, 0x80, 0x42] 0 = (false, 2) := by decide
+example : Boost.utf8ToUtf8 Gen.methodStop [0x61, 0xE2, 0x82] = none := by decide         -- truncated at the end
+example : Boost.utf8ToUtf8 Gen.methodSkip [0x61, 0xE2, 0x82] = some [0x61] := by decide
+example : Boost.utf8ToUtf8 Gen.methodSkip [0xC3] = some [] := by decide
+example : Boost.utf8ToUtf8 Gen.methodSkip [0xE2, 0x41, 0x42] = some [0x42] := by decide         -- the byte that ended the bad sequence goes with it
+example : Boost.utf8ToCps Gen.methodStop [0x41, 0xE2, 0x82, 0xAC] = some [0x41, 0x20AC] := by decide
+example : Boost.utf32ToUtf8 Gen.methodSkip [0x41, 0xD800, 0x20AC, 0x110000] = some [0x41, 0xE2, 0x82, 0xAC] := by decide
 example : ReplOk 63 := Or.inr ⟨1, [(63, [63])], by decide, by decide, by decide⟩
 example : ReplOk 0 := Or.inl rfl
 example : filterUtf8 [0x41, 0xC3, 0xFF, 0x01, 0xC2, 0x80, 0x42] 63 = (false, some [0x41, 63, 63, 63, 63, 0x42]) := by decide
